@@ -9,6 +9,7 @@ use crate::sqlmini::Tag;
 use crate::world::{BackendConn, ClientRec, History, StepOutcome, StepRec, Unit, HIST};
 use std::collections::{BTreeMap, BTreeSet};
 
+pub mod cache;
 pub mod control;
 pub mod data;
 pub mod routing;
@@ -197,6 +198,7 @@ pub fn evaluate(spec: &Spec, completed: bool) -> Vec<Violation> {
             "c04_bound" => control::c04_bound(&mut cx),
             "c04_capacity" => control::c04_capacity(&mut cx),
             "c12_params" => data::c12_params(&mut cx),
+            "c08_cache" => cache::c08_cache(&mut cx),
             other => {
                 cx.v("HARNESS", "unknown_oracle", other, 0, format!("unknown oracle {}", other));
             }
